@@ -241,6 +241,8 @@ def riemann_states(draw, equal_gamma=None, allow_boost=True, min_pstar=1e-6):
     p* <= ~8 max(pl,pr) (the solver's bracket is [0, 10 max p]) and stays away from vacuum."""
     rl, rr = draw(pos(1.0, decades=1.2)), draw(pos(0.125, decades=1.2))
     pl, pr = draw(pos(1.0, decades=1.5)), draw(pos(0.1, decades=1.5))
+    if draw(st.booleans()):          # the defaults favour pl > pr: swap sides half of the time
+        rl, rr, pl, pr = rr, rl, pr, pl
     if draw(st.integers(0, 9)) == 0:
         pr = pl
     eq = draw(st.booleans()) if equal_gamma is None else equal_gamma
